@@ -30,7 +30,13 @@ def fingerprint(F, body, site):
     import hashlib
     t = body['blocks'][site.bb]['term']
     names = body.get('debug', {})
-    if t['t'] == 'assert':
+    if site.kind.startswith('cast:'):
+        fp = site.kind
+        for s_ in body['blocks'][site.bb]['stmts']:
+            if s_['s'] == 'assign' and s_['rv']['r'] == 'cast' and s_.get('span') == site.span and \
+                    site.kind == 'cast:%s->%s' % (s_['rv']['a'].get('p', {}).get('ty'), s_['rv']['to']['s']):
+                fp = '%s(%s)' % (site.kind, expr_str(expr_of(F, body, s_['rv']['a']), names)); break
+    elif t['t'] == 'assert':
         ops = [expr_str(expr_of(F, body, o), names) for o in t['ops']]
         fp = '%s(%s)' % (t['kind'], ' ; '.join(ops))
     elif t['t'] == 'call':
